@@ -35,6 +35,8 @@ structure Shadow where
   curMal    : Nat := 2
   period    : P := .disabled
   stage     : Nat := 0
+  mrpBase   : Nat := 0                      -- registry index of the memory-report plugin's malloc allocator (new: +1, new[]: +2)
+  saved     : Nat × Nat × Nat := (0, 1, 2)  -- the current allocators (new, new[], malloc) before the plugin's pre action
 deriving Inhabited
 
 def guardByte (i : Nat) : UInt8 :=
@@ -193,6 +195,35 @@ def specStep (sh : Shadow) (o : Proto.Op) : Except String Shadow := do
   | ["drop", a] =>
     if (find sh (nat a)).isSome then throw "environment: the client dropped a block that is still outstanding"
     else pure sh
+  | ["plugin", "create"] => pure { sh with period := .enabled }
+  | ["plugin", "pre"] => pure { sh with period := .checking }
+  | ["plugin", "post"] =>
+    pure { sh with period := .enabled,
+                   live := sh.live.map (fun b => if b.period == .checking then { b with period := .enabled } else b) }
+  | ["plugin", "ignore"] => pure sh
+  | ["plugin", "expect", _] => pure sh
+  | ["mrp", "create"] => pure { sh with mrpBase := sh.fams.length }
+  | ["mrp", "pre"] =>
+    -- the report allocators become current; each stands for the family of the allocator it took over from
+    let b := sh.mrpBase
+    let want := [b + 1, b + 2, b]
+    match obs.find? (fun l => l.head? == some "current") with
+    | some [_, x, y, z] =>
+      if [nat x, nat y, nat z] != want then throw s!"after the pre action the current allocators are {[x, y, z]}, the report allocators are {want}"
+      pure { sh with saved := (sh.curNew, sh.curArr, sh.curMal), curNew := b + 1, curArr := b + 2, curMal := b,
+                     fams := [(b + 1, famOf sh sh.curNew), (b + 2, famOf sh sh.curArr), (b, famOf sh sh.curMal)] ++ sh.fams }
+    | _ => throw "mrp pre: no current line"
+  | ["mrp", "post"] =>
+    -- identity: whatever was current before the pre action is current again (a family switched by the test itself stays)
+    let b := sh.mrpBase
+    let want := [if sh.curNew == b + 1 then sh.saved.1 else sh.curNew, if sh.curArr == b + 2 then sh.saved.2.1 else sh.curArr,
+                 if sh.curMal == b then sh.saved.2.2 else sh.curMal]
+    match obs.find? (fun l => l.head? == some "current") with
+    | some [_, x, y, z] =>
+      if [nat x, nat y, nat z] != want then
+        throw s!"after the post action the current allocators (new, new[], malloc) are {[x, y, z]}; before the pre action they were {want}"
+      pure { sh with curNew := want.getD 0 0, curArr := want.getD 1 0, curMal := want.getD 2 0 }
+    | _ => throw "mrp post: no current line"
   | ["overloads", _] => pure sh
   | ["report", _] => pure sh
   | ["invalidate", _] => pure sh
